@@ -88,12 +88,20 @@ const vmLimitScale = 3_000_000
 func TestC01Scale(t *testing.T) {
 	seedNote(t)
 	StartWatchdog("C01", 90*time.Second)
-	st := NewStats("C01", "scale", "fifteen linear-time bodies (three of them with loop minima of 65..100, on the first 900 bytes) (literals, bounded loops, captures and back-references, in / not in, anchors, a named loop) x generated multi-line texts of 0.5..4 kB (hundreds of matches) as find all and replace all; spans and variables vs the reference matcher; non-trivial = >= 50 matches; distinct by (body, text)")
+	st := NewStats("C01", "scale", "fifteen linear-time bodies (three of them with loop minima of 65..100, on the first 900 bytes) (literals, bounded loops, captures and back-references, in / not in, anchors, a named loop) x generated multi-line texts of 0.5..4 kB (hundreds of matches; a third of them searched as files of >= 9 kB through RunFiles) as find all and replace all; spans and variables vs the reference matcher; non-trivial = >= 50 matches; distinct by (body, text)")
 	defer st.Write()
 	rapid.Check(t, func(t *rapid.T) {
 		bi := rapid.IntRange(0, len(scaleBodies)-1).Draw(t, "body")
 		body := scaleBodies[bi]
 		text := clipForBody(bi, genScaleText(t))
+		asFile := rapid.IntRange(0, 2).Draw(t, "asfile") == 0
+		if asFile {
+			// as a file the text is at least two buffer windows long
+			base := text
+			for len(text) < 9000 && bi < 12 {
+				text += "\n" + base
+			}
+		}
 		prog := FindAll(body...)
 		if rapid.IntRange(0, 3).Draw(t, "replace") == 0 {
 			prog.Commands[0].Replace = true
@@ -106,12 +114,15 @@ func TestC01Scale(t *testing.T) {
 			st.Count("discarded")
 			return
 		}
-		c := SpanCase{Src: src, Text: text, Want: mr.Spans, CheckVars: true}
+		c := SpanCase{Src: src, Text: text, Want: mr.Spans, CheckVars: true, File: asFile}
+		if asFile {
+			st.Count("searched_as_a_file")
+		}
 		v, err, p := CompileSafe(src)
 		if p != nil || err != nil {
 			t.Fatalf("HARNESS: %s does not compile", src)
 		}
-		res := RunSafe(v, text, vmLimitScale)
+		res := runTextOrFile(v, text, asFile, vmLimitScale)
 		if res.OverBudget {
 			st.Count("discarded_vm_budget")
 			return
